@@ -11,9 +11,10 @@ register_source/register_load are in contracts/C17_main.py (abstract strings).
 import ast
 import z3
 from pyvc.engine import (SObj, SList, SSeq, SSet, SDict, AStr, PyRaise, EngineError, LoopSpec,
-                         OptObj, FMap)
+                         OptObj, FMap, NDArr)
 from pyvc.values import *      # noqa
 from pyvc.runner import Unit, Canary
+from pyvc import builtins as B
 from .schema import SCHEMA
 from . import common as K
 
@@ -207,6 +208,126 @@ def t_compute_tags(eng):
                           z3.And(term(nc.val) < term(nd.val),
                                  z3.ForAll([j], z3.Implies(z3.And(0 <= j, j < L, z3.Not(tag0(gid(j)).isnone)),
                                                            term(tag0(gid(j)).val) < term(nc.val))))))
+
+
+# ---------------------------------------------------------------- compute_tags executed on three objects (any implementation)
+def t_compute_tags_small(eng):
+    """the real compute_tags on a container of three objects, each either untagged or with a symbolic explicit tag, in every
+    arrangement.  Contract (the property's addressing clause): either ValueError, and then an explicit tag is not positive or two
+    explicit tags are equal; or afterwards every object has a positive tag, the tags are pairwise different, explicit tags are
+    unchanged, every automatic tag is larger than every explicit tag, automatic tags increase in list order, by_tag maps every
+    tag to its object and the list is ordered by tag.  The invariant unit above proves the two loops as written for any number of
+    objects; this one holds for any way of writing them (e.g. one merged pass)."""
+    n = P + '/Geo_Container.compute_tags[three objects]/'
+    gc = SObj('Geo_Container', label='gc')
+    objs, tags0 = [], []
+    for k in range(3):
+        g = SObj('Geobj', label='g%d' % k)
+        if eng.choose(2) == 1:
+            t = fresh_int('tag%d' % k)
+        else:
+            t = None
+        g.fields['tag'] = t
+        objs.append(g)
+        tags0.append(t)
+    K.distinct(eng, *objs)
+    gc.fields['geo'] = SList([('conc', list(objs))])
+    gc.fields['by_tag'] = {}
+    expl = [t for t in tags0 if t is not None]
+    bad = b_or(*([r_cmp('<=', t, 0) for t in expl]
+                 + [r_cmp('==', expl[i], expl[j]) for i in range(len(expl)) for j in range(i + 1, len(expl))])) if expl else False
+    try:
+        eng.call_qual('Geo_Container.compute_tags', [gc])
+    except PyRaise as ex:
+        eng.oblige(n + 'raises-only-ValueError', ex.cls == 'ValueError')
+        eng.oblige(n + 'raises-only-for-a-non-positive-or-duplicate-explicit-tag', bad)
+        eng.cover('compute_tags-small/raise')
+        return
+    eng.cover('compute_tags-small/normal')
+    eng.oblige(n + 'bad-explicit-tags-are-rejected', b_not(bad))
+    tags = [g.fields.get('tag') for g in objs]
+    ok = all(t is not None and not isinstance(t, Opt) for t in tags)
+    eng.oblige(n + 'every-object-has-a-tag', ok)
+    if not ok:
+        return
+    eng.oblige(n + 'all-tags-positive', b_and(*[r_cmp('>', t, 0) for t in tags]))
+    eng.oblige(n + 'tags-pairwise-different', b_and(*[r_cmp('!=', tags[i], tags[j]) for i in range(3) for j in range(i + 1, 3)]))
+    eng.oblige(n + 'explicit-tags-unchanged', b_and(*[r_cmp('==', tags[i], tags0[i]) for i in range(3) if tags0[i] is not None]))
+    auto = [i for i in range(3) if tags0[i] is None]
+    eng.oblige(n + 'automatic-tags-follow-the-largest-explicit-tag-in-list-order',
+               b_and(*([r_cmp('>', tags[i], t) for i in auto for t in expl]
+                       + [r_cmp('<', tags[auto[a]], tags[auto[a + 1]]) for a in range(len(auto) - 1)])))
+    bt = gc.fields['by_tag']
+    good = isinstance(bt, dict)
+    eng.oblige(n + 'by_tag-is-a-mapping', good)
+    if good:
+        for i in range(3):
+            kf = B.dict_find(eng, bt, tags[i])
+            eng.oblige(n + 'by_tag-maps-each-tag-to-its-object', kf is not None and bt[kf] is objs[i])
+    geo2 = gc.fields['geo']
+    items = eng.concrete_items(geo2)
+    good = items is not None and len(items) == 3 and set(map(id, items)) == set(map(id, objs))
+    eng.oblige(n + 'list-keeps-its-three-objects', good)
+    if good:
+        eng.oblige(n + 'list-ordered-by-tag', b_and(*[r_cmp('<', items[i].fields['tag'], items[i + 1].fields['tag']) for i in range(2)]))
+
+
+U_TAGS3 = Unit(P + '/Geo_Container.compute_tags-small', ['Geo_Container.compute_tags'], t_compute_tags_small, SCHEMA,
+               notes='bounded(shape): three objects, each untagged or with a symbolic explicit tag, all eight arrangements')
+
+
+# ---------------------------------------------------------------- register_load executed on a two-object model (any implementation)
+def t_register_load_small(eng):
+    """the real register_load on a concrete model of two objects: A (tag 1) with one pulse of its own, B (tag 2) joined to A with
+    its FIRST end, so that B's block lists the junction pulse (whose leading segment lies on A) and one pulse of its own.  Every
+    address form that is valid here: all pulses, all pulses of object 1 / of object 2, pulse k of object t, absolute pulse k.
+    Contract (the property statement): the load is attached to exactly the pulses that the geometry table lists in the block of
+    the object (Geobj.pulses, in order), resp. to the k-th row of that block, resp. to row k of the whole table; and the load is
+    listed once.  The fold unit proves the loops as written for any model; this one holds for any way of writing them."""
+    n = P + '/Mininec.register_load[two objects]/'
+    m = SObj('Mininec', label='m')
+    A, Bo = SObj('Geobj', label='A'), SObj('Geobj', label='B')
+    K.distinct(eng, A, Bo)
+    segA, segB0, segB1 = (SObj('Segment', label=x) for x in ('sA', 'sB0', 'sB1'))
+    segA0 = SObj('Segment', label='sA0')
+    for sg, g in ((segA0, A), (segA, A), (segB0, Bo), (segB1, Bo)):
+        sg.fields['geobj'] = g
+    ps = []
+    for k, (geo, segs, owner) in enumerate((((A, A), (segA0, segA), A), ((A, Bo), (segA, segB0), Bo), ((Bo, Bo), (segB0, segB1), Bo))):
+        p = SObj('Pulse', label='p%d' % k)
+        p.fields.update({'idx': k, 'geo': geo, 'segs': segs, 'geobj': owner, 'ground': NDArr([False, False])})
+        ps.append(p)
+    K.distinct(eng, *ps)
+    A.fields.update({'tag': 1, 'n': 0, 'pulses': SList([('conc', [ps[0]])])})
+    Bo.fields.update({'tag': 2, 'n': 1, 'pulses': SList([('conc', [ps[1], ps[2]])])})
+    gc = SObj('Geo_Container', label='gc')
+    gc.fields.update({'geo': SList([('conc', [A, Bo])]), 'by_tag': {1: A, 2: Bo}})
+    pc = SObj('Pulse_Container', label='pc')
+    pc.fields.update({'pulses': SList([('conc', list(ps))]), 'pulse_idx': 3})
+    load = SObj('Impedance_Load', label='load')
+    load.fields.update({'pulses': SList([('conc', [])]), 'n': None})
+    m.fields.update({'geo': gc, 'pulses': pc, 'loads': SList([('conc', [])])})
+    for q in ('Geobj.pulse_iter', 'Geobj.pulse_idx_iter', 'Geo_Container.__iter__', 'Pulse_Container.__iter__', 'Pulse_Container.__len__',
+              'Pulse_Container.__getitem__', '_Load.add_pulse'):
+        eng.inline.add(q)
+    forms = [('all', None, None, [0, 1, 2]), ('all-of-object-1', None, 1, [0]), ('all-of-object-2', None, 2, [1, 2]),
+             ('row-1-of-object-2', 0, 2, [1]), ('row-2-of-object-2', 1, 2, [2]), ('row-1-of-object-1', 0, 1, [0]),
+             ('absolute-row-2', 1, None, [1]), ('absolute-row-3', 2, None, [2])]
+    name, pulse, geo_tag, want = forms[eng.choose(len(forms))]
+    kw = {} if geo_tag is None else {'geo_tag': geo_tag}
+    eng.call_qual('Mininec.register_load', [m, load, pulse], kw)
+    eng.cover('register_load-small/' + name)
+    got = eng.concrete_items(load.fields['pulses'])
+    eng.oblige(n + 'attached-to-exactly-the-rows-of-the-addressed-block-in-table-order',
+               got is not None and [id(x) for x in got] == [id(ps[k]) for k in want],
+               detail='%s: got %s' % (name, None if got is None else [getattr(x, 'label', x) for x in got]))
+    ll = eng.concrete_items(m.fields['loads'])
+    eng.oblige(n + 'load-listed-once-and-numbered-by-its-position',
+               ll is not None and len(ll) == 1 and ll[0] is load and load.fields.get('n') == 0)
+
+
+U_REG_LOAD2 = Unit(P + '/Mininec.register_load-small', ['Mininec.register_load'], t_register_load_small, SCHEMA,
+                   notes='bounded(shape): two objects, three pulses, one junction pulse owned by the later object; eight address forms')
 
 
 class _NoSort(ast.NodeTransformer):
@@ -589,7 +710,7 @@ def t_both_forms(eng):
 
 U_BOTH = Unit(P + '/lemma-both-forms', [], t_both_forms, SCHEMA, kind='lemma')
 
-UNITS = [U_PC_ADD, U_ITERS, U_TAGS, U_REG_SRC, U_REG_LOAD, U_LIST_SRC, U_LIST_LOAD, U_BOTH]
+UNITS = [U_PC_ADD, U_ITERS, U_TAGS, U_TAGS3, U_REG_SRC, U_REG_LOAD, U_REG_LOAD2, U_LIST_SRC, U_LIST_LOAD, U_BOTH]
 
 
 # units of other modules that also run under this property (resolved by the runner after import)
